@@ -1,0 +1,11 @@
+//go:build verif
+
+package bech32
+
+// Exports for the /verif conformance harness (build tag verif only).
+
+// VerifPolymod exposes the bech32 checksum remainder function.
+func VerifPolymod(values []int) int { return bech32Polymod(values) }
+
+// VerifHrpExpand exposes the human-readable part expansion.
+func VerifHrpExpand(hrp string) []int { return bech32HrpExpand(hrp) }
